@@ -5,8 +5,9 @@
 
 pub type Span = core::ops::Range<usize>;
 
-#[derive(Debug, Copy, Clone, PartialEq, Eq)]
-pub enum Token { EOF, Error, A, B, Ws, Cm }
+// `pub enum Token {..}`, `TOKENS` (all variants) and `is_skip` (the skip set as DECLARED IN THE
+// GRAMMAR, not as emitted) come from tokens.rs, written next to extracted.rs on every run.
+include!("tokens.rs");
 #[derive(Debug, Copy, Clone, PartialEq, Eq)]
 pub enum Rule { Error, R }
 #[derive(Debug, Copy, Clone)]
@@ -36,9 +37,10 @@ mod proofs {
     }
 
     fn any_token() -> Token {
-        match kani::any::<u8>() % 6 { 0 => Token::EOF, 1 => Token::Error, 2 => Token::A, 3 => Token::B, 4 => Token::Ws, _ => Token::Cm }
+        let k: usize = kani::any();
+        kani::assume(k < TOKENS.len());
+        TOKENS[k]
     }
-    fn is_skip(t: Token) -> bool { matches!(t, Token::Error | Token::Ws | Token::Cm) }
 
     const N: usize = 4;
 
@@ -109,10 +111,10 @@ mod proofs {
     // CstData::span: token node -> the lexer's span; rule node -> from the first to the last token
     // leaf inside the node's extent, else the empty span at the end of the last token before it.
     #[kani::proof]
-    #[kani::unwind(7)]
+    #[kani::unwind(5)]
     fn cst_span_matches_spec() {
         let len: usize = kani::any();
-        kani::assume(len >= 1 && len <= N);
+        kani::assume(len >= 1 && len <= 3);       // BOUNDED: at most 3 nodes
         let mut nodes = Vec::new();
         let mut spans = Vec::new();
         let mut ntok = 0usize;
